@@ -100,7 +100,8 @@ Lemma rtsp_feed_shape s m s' ev :
   rtsp_feed fx rf acfg add s m = Ok (s', ev) -> q_shape (rs_done s) (rs_cache s) m (rs_done s') (rs_cache s').
 Proof.
   unfold rtsp_feed. destruct (mm_type m =? t_meta).
-  { intro H. bstep H as sm E1. inversion H; subst. left. destruct (rtsp_meta_shape _ _ _ E1) as [Hc Hd]. split; congruence. }
+  { destruct (rs_done s) eqn:Ed0; [intro H; inversion H; subst; left; split; congruence|].
+    intro H. bstep H as sm E1. inversion H; subst. left. destruct (rtsp_meta_shape _ _ _ E1) as [Hc Hd]. split; congruence. }
   destruct (rtsp_gate_short m) eqn:Gate; [intro H; inversion H; subst; left; split; reflexivity|].
   assert (Hg : gate_ok m).
   { unfold rtsp_gate_short in Gate. split; intro Ht; rewrite Ht in Gate; cbn in Gate; apply Nat.leb_gt in Gate; exact Gate. }
